@@ -43,6 +43,11 @@ def install_tap():
     _tap_installed[0] = True
 
 
+def num(t):
+    """exact numeric value of a clock / time stamp: ints stay ints (they may exceed 2**53), everything else -> float (SI)"""
+    return t if type(t) is int else float(t)
+
+
 def time_value(prog, x):
     """program literal -> object handed to the real simulator"""
     if prog["clock"] == "duration":
@@ -195,8 +200,8 @@ class Harness:
                     h.runaway = True
                     sim.eventlist().clear()
                     return
-                h.hlog.append((tag, float(t), type(t).__name__, ev.priority if ev is not None else None))
-                h.timeline.append(("h", tag, float(t), ev.priority if ev is not None else None))
+                h.hlog.append((tag, num(t), type(t).__name__, ev.priority if ev is not None else None))
+                h.timeline.append(("h", tag, num(t), ev.priority if ev is not None else None))
                 if h.sleeper:
                     h.sleeper()
                 if h.pause_at is not None and h.exec_count == h.pause_at:
@@ -208,8 +213,8 @@ class Harness:
         class Recorder(EventListener):
             def notify(self, event):
                 ts = getattr(event, "timestamp", None)
-                h.nlog.append((event.event_type.name, None if ts is None else float(ts), threading.current_thread().name))
-                h.timeline.append(("n", event.event_type.name, None if ts is None else float(ts)))
+                h.nlog.append((event.event_type.name, None if ts is None else num(ts), threading.current_thread().name))
+                h.timeline.append(("n", event.event_type.name, None if ts is None else num(ts)))
                 cb = h.on_notify
                 if cb:
                     cb(event.event_type.name, event)
@@ -404,7 +409,7 @@ class Harness:
         spec = next(sp for sp in self.prog["stats"] if sp["key"] == key)
         kind = spec["kind"]
         t = sim.simulator_time
-        self.timeline.append(("o", key, float(t), a[2:]))
+        self.timeline.append(("o", key, num(t), a[2:]))
         if spec.get("via") == "event":
             payload = a[2] if kind != "wtally" else (a[2], a[3])
             self.producers[key].fire(self.etypes[key], payload)
@@ -465,7 +470,7 @@ class Harness:
         if self.runaway:
             raise Runaway(self.exec_count)
         return {"run_state": self.sim.run_state.name, "replication_state": self.sim.replication_state.name,
-                "clock": float(self.sim.simulator_time), "pending": self.sim.eventlist().size(),
+                "clock": num(self.sim.simulator_time), "pending": self.sim.eventlist().size(),
                 "worker": "none" if w is None else ("dead" if not w.is_alive() else ("waiting" if w.is_waiting() and not w.is_running() else "busy"))}
 
     def cmd(self, name, *args):
@@ -565,12 +570,12 @@ def check_clock_monotone(h, ctx, where, sig="clock-moved-backwards"):
     for name, old, new, thread, in_init in h.clock_writes():
         ctx.count("clock_writes_observed")
         if in_init:
-            prev = float(new)
+            prev = num(new)
             continue
-        if prev is not None and float(new) < prev:
-            ctx.viol(sig, {**where, "from": prev, "to": float(new), "thread": thread})
+        if prev is not None and num(new) < prev:
+            ctx.viol(sig, {**where, "from": prev, "to": num(new), "thread": thread})
             return False
-        prev = float(new)
+        prev = num(new)
     return True
 
 
